@@ -60,6 +60,8 @@ def run(tier, seed):
     chk.add_rule("C16.S.join_order", ok, sites, failing)
     ok, sites, failing = frame.rule_no_name_order()
     chk.add_rule("C16.S.no_name_order", ok, sites, failing)
+    ok, sites, failing = frame.rule_lock_reads()
+    chk.add_rule("C16.S.lock_reads", ok, sites, failing, detail="the registry's public methods have one path: lock, delegate to BackendRegistryState, publish - no lock-free or memo-first shortcut")
     from .C06 import ALLOWED_WRITERS
     ok, sites, failing, _inv = frame.rule_shared(ALLOWED_WRITERS)
     chk.add_rule("C16.S.shared", ok, sites, failing, detail="'regardless of how many times or in which order it is repeated': no call-time writes to module-level state other than the registry, "
